@@ -395,7 +395,13 @@ def run(ck):
             diff = want
             gate = None
             sign = None
+            gate_inclusive = False
             for f, tv in efacts.items():
+                if f[0] == "le" and tv is True:
+                    items0 = dict(T.to_poly(f[1]))
+                    const0 = items0.pop((), 0)
+                    if T.from_poly(items0) == T.p_neg(T.mk_call("abs", [diff])) and (gate is None or const0 >= gate):
+                        gate, gate_inclusive = const0, True                  # T - |diff| <= 0: the bound itself passes the gate
                 if f[0] != "lt":
                     continue
                 items = dict(T.to_poly(f[1]))
@@ -419,6 +425,8 @@ def run(ck):
             # 0 <= T' <= T the recorded call has a negative diff exactly when ...
             negative = tv if direction == "lt" else (not tv)
             ok = (negative is (key == "insertion")) and 0 <= tprime <= gate
+            if gate_inclusive and tprime == gate and tprime > 0:
+                ok = False                # |diff| == T passes the gate, but diff == -T fails `diff < -T`: a negative Length filed as 'deletion'
             ck.judge(ok, "C20.2", construct + ":sign", w,
                      "type is 'insertion' exactly when reference gap - query gap is negative "
                      f"(gate T={gate}, test T'={tprime})",
